@@ -47,7 +47,7 @@ Record note := mk_note {
   (* ghost: how the note was created *)
   cdl : time;               (* abs_deadline passed to nsync_note_new *)
   cpar : option nat;        (* parent passed to nsync_note_new *)
-  cinh : bool;              (* nsync_note_new compared with the parent (the child was not yet notified when created) *)
+  cinh : bool;              (* nsync_note_new compared with the parent (it does so whenever the parent is not NULL) *)
   cpz : bool                (* ... and the parent's `notified` was already set then *)
 }.
 Definition note0 : note := mk_note false None 0 None [] [] O None O None None false false.
@@ -94,8 +94,10 @@ Inductive fstg := F1 | Fw1 | Fw2 | F2 | F3 | F4 | F5 | F6 (c : nat) (nx : option
      if set | FR inside note_notify_child (c, n) | F8 child->disconnecting-- (if dec), unlock child
      | F9 cc.seen_adoptions = n->adoptions, mu_wait releases | F10 re-acquires when children_changed (no children left, or
      n->adoptions differs), and runs the adoption pass again | F11 unlock parent | F12 disconnecting--, unlock n | F13 free *)
-Inductive newst := W1 | WD (n : nat) | W2 (n p : nat) | W3 (n p : nat) | W4 (n p : nat).
-  (* nsync_note_new: W1 malloc | WD nsync_note_is_notified (n) | W2 lock parent | W3 load parent->notified (190) | W4 unlock parent *)
+Inductive newst := W1 | WD (n : nat) | W2 (n p : nat) (e : bool) | W3 (n p : nat) (e : bool) | W4 (n p : nat).
+  (* nsync_note_new: W1 malloc | WD expired = nsync_note_is_notified (n) | W2 lock parent | W3 load parent->notified (NOTIFIED_TIME
+     (parent)), the comparison with abs_deadline, the link under the parent unless expired | W4 unlock parent;
+     e is the local `expired` *)
 Inductive wst := WReady | E1 | E2 | E3 | E4 | E5 | WLoop | S1 (d : time) | WDeq | Q1 | Q2 | Q3 | Q4 (was : bool).
   (* nsync_note_wait: WReady first ready_time | note_enqueue: E1 lock, E2 load (285), E3 store waiting=1 (288), E4 store
      waiting=0 (291), E5 unlock | WLoop ready_time in the loop | S1 P with deadline d | note_dequeue: WDeq its call of
@@ -229,7 +231,7 @@ Definition cur_note (s : tstate) : option nat := match rev (stack s) with f :: _
 Definition cur_free (s : tstate) : option nat := match rev (stack s) with FF n _ _ :: _ => Some n | _ => None end.
 Definition cur_new (s : tstate) : option nat :=           (* the note this thread's nsync_note_new is still constructing *)
   match rev (stack s) with
-  | ANew _ _ (WD n) :: _ | ANew _ _ (W2 n _) :: _ | ANew _ _ (W3 n _) :: _ | ANew _ _ (W4 n _) :: _ => Some n
+  | ANew _ _ (WD n) :: _ | ANew _ _ (W2 n _ _) :: _ | ANew _ _ (W3 n _ _) :: _ | ANew _ _ (W4 n _) :: _ => Some n
   | _ => None
   end.
 Definition opt_is (x : option nat) (n : nat) : bool := match x with Some m => Nat.eqb m n | None => false end.
@@ -277,8 +279,8 @@ Definition ret_D (w : world) (t : nat) (rest : list frame) (v : time) : world :=
   | AIs n :: _ => finish w t (OIsNotified n) (RBool (negb (tpos v)))
   | ANotify n :: _ => if tpos v then setst w t (FN n N1 None false :: rest) else finish w t (ONotify n) RNone
   | ANew par dl (WD n) :: r =>
-      match par with
-      | Some p => if tpos v then setst w t (ANew par dl (W2 n p) :: r) else finish w t (ONew par dl) (RNote (Some n))
+      match par with      (* expired = (cmp (v, zero) <= 0); if (parent != NULL) -- Sites.nsync_note_new_load1_guard, pinned by NoteProof.new_guard *)
+      | Some p => setst w t (ANew par dl (W2 n p (negb (tpos v))) :: r)
       | None => finish w t (ONew par dl) (RNote (Some n))
       end
   | AWait n dl WReady :: r =>
@@ -496,12 +498,12 @@ Definition step_New (w : world) (t : nat) (c : bool) (par : option nat) (dl : ti
                let w1 := mk_w (fupd (notes w) n x) (S n) (clock w) (thr w) (nthr w) (gh w) in
                (setst w1 t (FD n D1 :: ANew par dl (WD n) :: rest), EvMalloc (Some n))
   | WD _ => (w, EvNone)
-  | W2 n p => if lock_free w p then (setst (acquire w t p) t (ANew par dl (W3 n p) :: rest), EvLock p) else (w, EvBlocked)
-  | W3 n p => let v := flag (nt w p) in
+  | W2 n p e => if lock_free w p then (setst (acquire w t p) t (ANew par dl (W3 n p e) :: rest), EvLock p) else (w, EvBlocked)
+  | W3 n p e => let v := flag (nt w p) in
               let pt := notified_time w p v in
               let w1 := set_note w n (set_cinh (nt w n) true (negb (v =? 0))) in
               let w2 := if tlt pt dl then set_note w1 n (set_expiry (nt w1 n) pt) else w1 in
-              let w3 := if tpos pt then
+              let w3 := if negb e && tpos pt then
                           let w' := set_note w2 n (set_parent (nt w2 n) (Some p)) in
                           set_note w' p (set_children (nt w' p) (children (nt w' p) ++ [n]))
                         else w2 in
@@ -583,8 +585,8 @@ Definition touches (w0 : world) (t : nat) : list nat :=
       | ANew par dl s => match s with
                          | W1 => []
                          | WD n => [n]
-                         | W2 n p => [p]
-                         | W3 n p => [n; p]
+                         | W2 n p _ => [p]
+                         | W3 n p _ => [n; p]
                          | W4 n p => [p]
                          end
       | AWait n _ _ => [n]
